@@ -91,6 +91,8 @@ struct C18 : Scenario {
         p.setd("zscale", r.chance(0.5) ? 1.0 : 1000.0);
         p.setu("dseed", r.u64());
         p.seti("planner", (r.chance(0.1) && nmax <= 256) ? 1 : 0);
+        // buggify (legal FFTW behaviour): the c2r transform destroys its input
+        p.seti("scribble", r.chance(0.4) ? r.range(1, 2) : 0);
         long nops = r.range(2, 12);
         std::string ops = "L0";
         long nextload = 1;
@@ -116,7 +118,7 @@ struct C18 : Scenario {
         uint32_t maxb = 0; bool has0 = false;
         for (auto b : f.buckets) { maxb = std::max(maxb, b); has0 |= (b == 0); }
         if ((size_t)maxb * f.spacing + f.nx > f.nmax) { o.discard("transform shorter than the bunch train (outside the property's domain)"); return o; }
-        api_begin(rc.workdir, 0, (int)plan.geti("planner"));
+        api_begin(rc.workdir, 0, (int)plan.geti("planner"), (int)plan.geti("scribble", 0));
         uint64_t dseed = plan.getu("dseed");
         std::vector<float> shares(f.nb, 1.0f / f.nb);
         if (f.nb == 3) shares = {0.5f, 0.25f, 0.25f};
@@ -178,6 +180,7 @@ struct C18 : Scenario {
         if (f.ztail > 0) o.probe("reach.impedance_zero_tail");
         if (f.spacing == 0) o.probe("reach.zero_spacing");
         if (plan.geti("planner")) o.probe("reach.planner_real");
+        if (simrt::state().scribbles > 0) o.fault("fftw_c2r_input_destroyed", simrt::state().scribbles);
         o.nontrivial = mixed;
         o.shape = shape + "|" + (f.full ? "full" : "min") + "|" + (has0 ? "b0" : "nob0") + "|" + lc;
         o.mixfp(shape); o.mixfp((uint64_t)o.fails.size());
@@ -201,6 +204,7 @@ struct C18 : Scenario {
         }
         if (p.geti("ztail") > 0) { Plan q = p; q.seti("ztail", 0); out.push_back(q); }
         if (p.geti("planner")) { Plan q = p; q.seti("planner", 0); out.push_back(q); }
+        if (p.geti("scribble", 0)) { Plan q = p; q.seti("scribble", 0); out.push_back(q); }
         if (p.geti("nb") > 1) {
             auto b = p.getlist("buckets");
             Plan q = p; q.seti("nb", p.geti("nb") - 1); b.pop_back(); q.setlist("buckets", b); out.push_back(q);
